@@ -77,7 +77,7 @@ ProjSide(x, c) == [sk   |-> [i \in DOMAIN x.sk[c] |-> ProjSock(x.sk[c][i])],
 Proj(x) == [A |-> ProjSide(x, "A"), B |-> ProjSide(x, "B")]
 PostOk == Proj(w') = Ev.post
 
-InvNames == <<"LiveFirst", "OneAddrPerSocket", "NoDoubleAlloc", "RangesRespected", "FreedOnLastClose", "Datagram",
+InvNames == <<"LiveFirst", "OneAddrPerSocket", "NoDoubleAlloc", "RangesRespected", "FreedOnLastClose", "AddrPoolConserved", "Datagram",
               "ResolveRight", "InUseRight", "ConnectByName", "DatagramStep", "Delivered">>
 \* state invariants are judged at the step that breaks them (P(w) => P(w')): a defect is reported where it
 \* happens (recorded in `fails`) and the rest of the history is still validated
@@ -86,6 +86,7 @@ InvP(n) == CASE n = "LiveFirst"        -> LiveFirstP(w) => LiveFirstP(w')
              [] n = "NoDoubleAlloc"    -> NoDoubleAllocP(w) => NoDoubleAllocP(w')
              [] n = "RangesRespected"  -> RangesRespectedP(w) => RangesRespectedP(w')
              [] n = "FreedOnLastClose" -> FreedOnLastCloseP(w) => FreedOnLastCloseP(w')
+             [] n = "AddrPoolConserved" -> AddrPoolConservedP(w) => AddrPoolConservedP(w')
              [] n = "Datagram"         -> DatagramP(w) => DatagramP(w')
              [] n = "ResolveRight"     -> ResolveRightP(w, last')
              [] n = "InUseRight"       -> InUseRightP(w, last')
